@@ -23,17 +23,25 @@ def dstep (s : DState) (toks : List String) : DState × String :=
     | _, _, _ => (s, "bad-op")
   | ["enq", x] =>
     match x.toNat? with
-    | some x => let it := enqueue s.it x; ({ s with it := it }, showItem it)
+    | some x =>
+      let it := enqueue s.it x
+      let arm := if s.it.queue.length = s.it.size then
+          (if s.it.discardOldest then "enq-full-oldest" else "enq-full-newest") ++ (if s.it.size > 1 then "-ov" else "-size1")
+        else "enq-room"
+      ({ s with it := it }, showItem it ++ " @@ " ++ arm)
     | none => (s, "bad-op")
   | ["drain"] =>
     match drain s.it with
-    | (it, none) => ({ s with it := it }, "ok none " ++ showItem it)
-    | (it, some q) => ({ s with it := it }, "ok " ++ showQ q ++ " " ++ showItem it)
+    | (it, none) => ({ s with it := it }, "ok none " ++ showItem it ++ " @@ drain-empty")
+    | (it, some q) => ({ s with it := it }, "ok " ++ showQ q ++ " " ++ showItem it ++ " @@ drain-some")
   | ["modify", r, d] =>
     match r.toNat?, parseBool? d with
     | some r, some d =>
       match modify s.maxQ s.it r d with
-      | .ok it => ({ s with it := it }, showItem it)
+      | .ok it =>
+        let arm := if s.it.queue.length > it.size then "modify-shrink-drop"
+          else if it.size > s.it.size then "modify-grow" else if it.size < s.it.size then "modify-shrink-fit" else "modify-same"
+        ({ s with it := it }, showItem it ++ " @@ " ++ arm)
       | .panic => (s, "panic")
     | _, _ => (s, "bad-op")
   | _ => (s, "bad-op")
